@@ -96,3 +96,23 @@ impl<'a> VerifSplitNChar<'a> {
 pub fn verif_splitn_char<'a>(s: &'a str, n: usize, c: char) -> (r: VerifSplitNChar<'a>)
     ensures r.rest() == Some(s@), r.sep() == c, r.left() == n
 { VerifSplitNChar { it: s.splitn(n, c) } }
+
+// str::split_once (std): the text before and after the FIRST occurrence of the delimiter, None if it does not occur
+pub open spec fn first_sub(s: Seq<char>, p: Seq<char>, k: int) -> bool {
+    0 <= k && k + p.len() <= s.len() && s.subrange(k, k + p.len()) == p
+        && forall|j: int| 0 <= j < k ==> #[trigger] s.subrange(j, j + p.len()) != p
+}
+#[verifier::external_body]
+pub fn verif_split_once_char<'a>(s: &'a str, c: char) -> (r: Option<(&'a str, &'a str)>)
+    ensures match r {
+        Some(t) => tail_of(s@, c) is Some && t.1@ == tail_of(s@, c)->Some_0 && t.0@ == head_of(s@, c),
+        None => tail_of(s@, c) is None,
+    }
+{ s.split_once(c) }
+#[verifier::external_body]
+pub fn verif_split_once_str<'a>(s: &'a str, p: &str) -> (r: Option<(&'a str, &'a str)>)
+    ensures match r {
+        Some(t) => exists|k: int| first_sub(s@, p@, k) && t.0@ == s@.take(k) && t.1@ == s@.skip(k + p@.len()),
+        None => forall|k: int| !(0 <= k && k + p@.len() <= s@.len() && #[trigger] s@.subrange(k, k + p@.len()) == p@),
+    }
+{ s.split_once(p) }
